@@ -5,10 +5,15 @@ VERUS_UNITS = {
     "u1_estimator": dict(template="units/u1_estimator.vrs", rlimit=80),
     "u5_ttl": dict(template="units/u5_ttl.vrs", rlimit=80),
     "u6_store": dict(template="units/u6_store.vrs", rlimit=120),
+    "u7_glue": dict(template="units/u7_glue.vrs", rlimit=120),
 }
 
 # Kani harness groups: appended as a child module to `file` in a scratch copy of /repo
 KANI_GROUPS = {
+    "keys": dict(file="src/lib.rs", include="kani/keys.rs", args=[], timeout=1500,
+                 trusted=["kani/keys: std's Hash impls for the primitive integers call Hasher::write_<int> exactly once (as compiled by Kani's pinned std)"]),
+    "histogram": dict(file="src/histogram.rs", include="kani/histogram.rs", args=[], timeout=1500,
+                      trusted=["kani/histogram: the 16 power-of-two bounds of metrics::new_histogram_bound (fixed loop bound 17, unwinding assertions on); atomics executed sequentially"]),
     "ttl": dict(file="src/ttl.rs", include="kani/ttl.rs", args=[], timeout=1500,
                 trusted=["kani/ttl: SystemTime::now is stubbed by a settable clock (faithful: Time only calls now()/elapsed()/duration_since()); seconds below 2^40 (year 36812); the OS clock is assumed monotone between the two reads of one scenario (elapsed().unwrap() panics otherwise)"]),
     "bbloom": dict(file="src/bbloom.rs", include="kani/bbloom.rs", args=[], timeout=1200,
@@ -28,12 +33,18 @@ PROPS = {
     "C13": dict(units=["u1_estimator"], kani=["bbloom"], replay=["estimator"]),
     "C14": dict(units=["u1_estimator"], kani=["bbloom"], replay=["estimator"]),
     "C20": dict(units=["u1_estimator"], kani=["bbloom"], replay=["estimator"]),
-    "C02": dict(units=["u6_store"], kani=[], replay=["ttl"]),
-    "C03": dict(units=["u6_store"], kani=["ttl"], replay=["ttl"]),
+    "C02": dict(units=["u6_store", "u7_glue"], kani=[], replay=["ttl"]),
+    "C03": dict(units=["u6_store", "u7_glue"], kani=["ttl"], replay=["ttl"]),
     "C04": dict(units=["u6_store", "u4_policy"], kani=["ttl"], replay=["ttl", "policy"]),
     "C05": dict(units=["u6_store", "u4_policy"], kani=["ttl"], replay=["ttl"]),
-    "C09": dict(units=["u6_store"], kani=[], replay=["ttl"]),
-    "C18": dict(units=["u6_store"], kani=[], replay=["ttl"]),
+    "C09": dict(units=["u6_store", "u7_glue"], kani=[], replay=["ttl"]),
+    "C18": dict(units=["u6_store"], kani=["keys"], replay=["ttl"]),
+    "C06": dict(units=["u7_glue", "u6_store", "u4_policy"], kani=[], replay=["ttl", "policy"]),
+    "C08": dict(units=["u7_glue", "u6_store"], kani=[], replay=["ttl"]),
+    "C11": dict(units=["u7_glue", "u6_store", "u4_policy", "u1_estimator"], kani=["histogram"], replay=["ttl", "estimator"]),
+    "C15": dict(units=["u7_glue", "u1_estimator"], kani=[], replay=["estimator"]),
+    "C16": dict(units=["u7_glue", "u4_policy", "u6_store"], kani=[], replay=["policy", "ttl"]),
+    "C17": dict(units=["u7_glue", "u4_policy"], kani=["histogram"], replay=["policy"]),
 }
 
 ASSUMPTIONS = {
